@@ -489,6 +489,10 @@ pub fn replay_lazy(case: &Value) -> bool {
 // ------------------------------------------------------------------------------------------------
 // C14
 
+pub fn permutations_pub(n: usize) -> Vec<Vec<usize>> {
+    permutations(n)
+}
+
 fn permutations(n: usize) -> Vec<Vec<usize>> {
     fn rec(cur: &mut Vec<usize>, used: &mut Vec<bool>, n: usize, out: &mut Vec<Vec<usize>>) {
         if cur.len() == n {
